@@ -431,6 +431,47 @@ pub fn run(tier: &str, seed: i64) -> Outcome {
     let a3 = run_workers(&self_exe(), args, budgets.len());
     reports.push(SpaceReport { name: format!("self-play (the real autoplay loop) with poll budgets {:?} per move, horizon {} moves (past the 512-entry state stack)", budgets, horizon), states: a3.states, exhaustive: true, note: format!("[{:.1}s]", t2.elapsed().as_secs_f64()) });
     acc.merge(a3);
+    // (4) the real binary's own self-play command (`rustybait auto <ms>`, real timer threads): must end by itself with
+    // exit status 0 and without a panic message, whatever depth the searches reach in the time given
+    match crate::realbin::real_bin() {
+        None => acc.errors.push("VERIF_REAL_BIN not set or missing: the real self-play stage was not run".into()),
+        Some(bin) => {
+            let t3 = std::time::Instant::now();
+            let ms: Vec<u64> = if q { vec![0, 1] } else { vec![0, 1, 5, 20] };
+            let res = par_items(&ms, &|_, m, acc| {
+                acc.states += 1;
+                acc.evaluations += 1;
+                let replay = json::obj(vec![("kind", json::s("c15-real-auto")), ("ms", json::i(*m))]);
+                let child = std::process::Command::new(&bin).arg("auto").arg(m.to_string()).stdin(std::process::Stdio::null()).stdout(std::process::Stdio::piped()).stderr(std::process::Stdio::piped()).spawn();
+                let Ok(child) = child else {
+                    acc.errors.push(format!("cannot run {}", bin));
+                    return;
+                };
+                // self-play is bounded by 400 plies x (ms + search wind-down); 600 s is far beyond that
+                let (tx, rx) = std::sync::mpsc::channel();
+                std::thread::spawn(move || {
+                    let _ = tx.send(child.wait_with_output());
+                });
+                match rx.recv_timeout(std::time::Duration::from_secs(600)) {
+                    Ok(Ok(o)) => {
+                        let err = String::from_utf8_lossy(&o.stderr).to_string();
+                        let plies = String::from_utf8_lossy(&o.stdout).lines().filter(|l| l.starts_with("Hash:")).count();
+                        acc.max("positions printed by one real self-play game", plies as u64);
+                        acc.transitions += plies as u64;
+                        if !o.status.success() || err.contains("panicked") {
+                            acc.violation(format!("real-auto|{}", m), format!("`rustybait auto {}` ended with status {:?} after {} positions: {}", m, o.status.code(), plies, err.lines().filter(|l| l.contains("panicked") || l.contains("overflow") || l.contains("bounds")).next().unwrap_or(err.lines().last().unwrap_or(""))), replay);
+                        } else {
+                            acc.outcome("real self-play ended cleanly");
+                        }
+                    }
+                    Ok(Err(e)) => acc.errors.push(format!("waiting for the self-play process failed: {}", e)),
+                    Err(_) => acc.violation(format!("real-auto-hang|{}", m), format!("`rustybait auto {}` did not end within 600 s", m), replay),
+                }
+            });
+            reports.push(SpaceReport { name: format!("real binary {}: `auto <ms>` self-play for ms in {:?} (real timer threads), exit status and panic text", bin, ms), states: res.states, exhaustive: true, note: format!("[{:.1}s]", t3.elapsed().as_secs_f64()) });
+            acc.merge(res);
+        }
+    }
     if acc.samples.is_empty() {
         acc.sample(json::obj(vec![("mobility_base", json::s(RECORD_218)), ("long_game", json::s("position fen 7k/8/8/8/8/8/8/K7 w - - 0 1 moves a1b1 h8g8 b1a1 g8h8 ... (398 plies)")), ("self_play", json::s("autoplay with 1 / 50 polls per move"))]));
     }
@@ -449,6 +490,7 @@ pub fn replay(j: &J) -> Result<Acc, String> {
     match j.get("kind").and_then(|x| x.as_str()) {
         Some("c15-mobility") => mobility_case(j.get("fen").and_then(|x| x.as_str()).ok_or("fen")?, "replay", &mut acc),
         Some("c15-stack") => stack_cases("quick", &mut acc),
+        Some("c15-real-auto") => return Ok(run("quick", 0).acc),
         Some("c15-autoplay") => {
             let b = j.get("budget").and_then(|x| x.as_i()).unwrap_or(1) as u64;
             let h = j.get("horizon").and_then(|x| x.as_i()).unwrap_or(620) as u64;
